@@ -84,3 +84,10 @@ def random_cuts(r, n, k):
         return ()
     k = min(k, n - 1)
     return tuple(sorted(r.sample(range(1, n), k)))
+
+
+def count(r, lo, hi, p_boundary=0.02):
+    """A list length: usually lo..hi, now and then one at which the list header of the wire encoding changes (255/256/257)."""
+    if r.random() < p_boundary:
+        return r.choice([255, 256, 256, 257])
+    return r.randint(lo, hi)
